@@ -989,6 +989,34 @@ pub fn generate(tier: &str, r: &mut Rng, emit: &mut dyn FnMut(Case)) {
         emit(Case::new("c10.partition", a, &["c10.partition", "c10.partition.spec"], format!("part k{kcols} {} {}", nclass(n), tn)));
     }
 
+    // ---- byte-view equality against a short constant (cmp.rs eq_inline_scalar: masked compare of the view's low half):
+    //      every needle length 0..=6 (and 12/13), rows that differ from the needle in exactly one position or in length
+    for vt in [Utf8View, BinaryView, Utf8, Dict(Box::new(Utf8View))] {
+        for len in [0usize, 1, 2, 3, 4, 5, 6, 12, 13] {
+            for rep in 0..(2 * scale) {
+                let needle: Vec<u8> = (0..len).map(|_| b'a' + r.below(3) as u8).collect();
+                let n = 5 + r.below(if rep % 2 == 0 { 12 } else { 70 });
+                let rows: Vec<OV> = (0..n).map(|_| {
+                    let mut b = needle.clone();
+                    match r.below(7) {
+                        0 => {}
+                        1 | 2 => { if !b.is_empty() { let p = r.below(b.len()); b[p] = if b[p] == b'z' { b'y' } else { b[p] + 1 + r.below(2) as u8 } } }
+                        3 => { b.push(b'a' + r.below(2) as u8) }
+                        4 => { b.pop(); }
+                        5 => { b = gen_bytes(r, true, None) }
+                        _ => return None,
+                    }
+                    Some(V::Bytes(b))
+                }).collect();
+                let sc = vec![Some(V::Bytes(needle.clone()))];
+                for (ls, l, rv) in [(false, &rows, &sc), (true, &sc, &rows)] {
+                    emit(Case::new("c10.kernel", vec![gty(&vt), glay(r), gcol(l), glay(r), gcol(rv), vec![BigInt::from(ls as u8), BigInt::from(!ls as u8)], gty(&vt)],
+                        &["c10.kernel", "c10.kernel.spec"], format!("kern-needle {} len{} ls{}", tyname(&vt), len, ls as u8)));
+                }
+            }
+        }
+    }
+
     // ---- comparison kernels: array-array, array-scalar, scalar-array, scalar-scalar
     for t in kernel_types() {
         for rep in 0..(6 * scale) {
